@@ -675,7 +675,10 @@ class DiskSim:
         from oslo_policy import opts
         c = self.w['conf']
         pf = c['pf']
-        opts._options = copy.deepcopy(PRISTINE_OPTIONS())
+        if PRISTINE_OPTIONS() is not None:
+            # opts.set_defaults() mutates this module-global list: every
+            # conf gets its own pristine copy (hermeticity of the harness)
+            opts._options = copy.deepcopy(PRISTINE_OPTIONS())
         conf = cfg.ConfigOpts()
         etc = self.abs('etc')
         if c['via'] == 'config_file':
@@ -856,7 +859,8 @@ _PRISTINE = []
 def PRISTINE_OPTIONS():
     if not _PRISTINE:
         from oslo_policy import opts
-        _PRISTINE.append(copy.deepcopy(opts._options))
+        o = getattr(opts, '_options', None)
+        _PRISTINE.append(copy.deepcopy(o) if isinstance(o, list) else None)
     return _PRISTINE[0]
 
 
